@@ -284,3 +284,37 @@ def check_counter(nprog=600, seed=7):
                 first = first or (src, f"differs on tape {tape}: {run(c1, tape)} vs {run(c2, tape)}", ast.unparse(t2))
                 break
     return {"programs": nprog, "rewritten": rewritten, "mismatches": mismatches, "first": first}
+
+
+def check_rotate(nprog=400, seed=11):
+    """Differential for `_rotate_primed_loops` of the term evaluator (`P; while T: B; P` -> `while True: P; if not T: break; B`)."""
+    from .symeval import _rotate_primed_loops
+
+    rnd = random.Random(seed)
+    rewritten = mismatches = 0
+    first = None
+    for _ in range(nprog):
+        P = rnd.choice(["d = nxt()", "d = nxt() % 4", "d = (nxt(), res)[0]"])
+        T = rnd.choice(["d != 3", "d not in (1, 2)", "d > 0 and res < 30", "d"])
+        pool = ["log(d)", "res += d", "if d % 2 == 0:\n            log(-d)", "if res > 20:\n            break", "x = nxt()", "res += 1", "if x == 7:\n            return -1"]
+        body = [rnd.choice(pool) for _ in range(rnd.randint(0, 3))]
+        if rnd.random() < 0.1:
+            body.insert(0, "d = 5")  # the primed variable written elsewhere in the body: must be left alone
+        last = P if rnd.random() < 0.9 else "d = nxt() % 5"
+        src = "def prog(nxt, log, risky):\n    res = 0\n    x = 0\n    %s\n    while %s:\n        %s\n    return (res, d)\n" % (P, T, "\n        ".join(body + [last]))
+        t1, t2 = ast.parse(src), ast.parse(src)
+        fn = t2.body[0]
+        new = _rotate_primed_loops(fn.body)
+        if new is fn.body:
+            continue
+        rewritten += 1
+        fn.body = list(new)
+        ast.fix_missing_locations(t2)
+        c1, c2 = compile(t1, "<orig>", "exec"), compile(t2, "<rot>", "exec")
+        for _ in range(10):
+            tape = [rnd.randint(0, 9) for _ in range(rnd.randint(0, 12))]
+            if run(c1, tape) != run(c2, tape):
+                mismatches += 1
+                first = first or (src, f"differs on tape {tape}: {run(c1, tape)} vs {run(c2, tape)}", ast.unparse(t2))
+                break
+    return {"programs": nprog, "rewritten": rewritten, "mismatches": mismatches, "first": first}
